@@ -20,6 +20,15 @@ Proof.
     exists r2. split; [exact E2|]. etransitivity; eassumption.
 Qed.
 
+Lemma nodup_app {A} (l l' : list A) :
+  NoDup l -> NoDup l' -> (forall x, In x l -> In x l' -> False) -> NoDup (l ++ l').
+Proof.
+  induction 1 as [|a l Ha Hl IH]; intros H' Hd; simpl; [exact H'|].
+  constructor.
+  - rewrite in_app_iff. intros [H|H]; [contradiction|]. apply (Hd a); [now left|exact H].
+  - apply IH; [exact H'|]. intros x Hx. apply Hd. now right.
+Qed.
+
 Lemma lookup_map {V W} (f : V -> W) k (l : dict V) :
   lookup k (map (fun kv => (fst kv, f (snd kv))) l) = option_map f (lookup k l).
 Proof.
@@ -115,7 +124,7 @@ Proof.
     apply existsb_exists. exists k. split; [|apply String.eqb_refl].
     cbn in Hb. cbn. tauto. }
   assert (Hpk : map fst props = map fst (m_props m)) by (unfold props; rewrite map_map; reflexivity).
-  rewrite dict_update_fresh by (rewrite ?Hpk; auto).
+  rewrite dict_update_fresh; [|rewrite Hpk; exact Hpnd|exact Hfresh].
   rewrite Hu.
   match goal with |- exists f p, Some ?F = Some f /\ _ => exists F end.
   (* the file is read back as the expected reading of the python dict *)
@@ -125,7 +134,7 @@ Proof.
   { unfold base. cbn [forallb snd]. destruct (m_y m), (m_x m); reflexivity. }
   assert (Hnf_phl : none_free (phaselist2dict (m_phases m)) = true).
   { unfold phaselist2dict. cbn [none_free]. apply none_free_phases; [reflexivity|].
-    clear. induction (m_phases m) as [|a l IH]; [reflexivity|]. simpl. rewrite none_free_phase. exact IH. }
+    clear. induction (m_phases m) as [|a l IH]; [reflexivity|]. cbn [map forallb fst snd]. rewrite none_free_phase. exact IH. }
   unfold load. rewrite store_roundtrip.
   2:{ cbn [none_free forallb snd andb]. rewrite forallb_app, Hnf_base, Hnf_props, Hnf_phl.
       destruct (m_y m), (m_x m); cbn; unfold step_of;
@@ -137,7 +146,8 @@ Proof.
   cbn [lookup String.eqb Ascii.eqb Bool.eqb].
   set (R := fun kv : string * pv T => (fst kv, rd (snd kv))).
   assert (Hnd_data : NoDup (map fst (map R (base ++ props)))).
-  { rewrite map_map. cbn [fst]. rewrite map_app, Hpk. apply NoDup_app_intro; auto.
+  { assert (HR : forall l, map fst (map R l) = map fst l) by (intros l; unfold R; rewrite map_map; reflexivity).
+    rewrite HR, map_app, Hpk. apply nodup_app; auto.
     - apply nodupb_sound. reflexivity.
     - intros k Hb Hp. rewrite <- Hpk in Hp. exact (Hfresh k Hp Hb). }
   assert (Hlk : forall k v, lookup k base = Some v ->
@@ -177,10 +187,39 @@ Proof.
   { rewrite (Hlk "y"%string _ eq_refl). destruct (m_y m) as [a|] eqn:E; [|reflexivity].
     cbn [rd]. now rewrite (unwrap_id _ (Hy a eq_refl)). }
   rewrite Hcx, Hcy.
-  rewrite zip3_maps, map_map.
+  rewrite zip3_maps, !map_map.
   rewrite (mk_cmap_fix O ccanon restruct fresh) by assumption.
-  unfold reloaded. rewrite Hu. f_equal. f_equal.
+  unfold reloaded. rewrite Hu.
+  match goal with |- Some (mkMap _ ?a _ _ _ _ _ _ _) = Some (mkMap _ ?b _ _ _ _ _ _ _) =>
+    replace a with b; [reflexivity|] end.
   apply map_ext. intros r. destruct (to_euler O r) as [[e0 e1] e2]. reflexivity.
+Qed.
+
+
+(* well-formedness does not look at the rotations and is invariant under
+   re-ordering the properties: the reloaded map is well-formed again *)
+Lemma wf_reloaded m props' : wf m -> Permutation props' (m_props m) -> wf (reloaded m props').
+Proof.
+  intros [Hn Hsq Hmask Hxy Hx Hy Hpnd Hpres Hplen Hu Hids Hphne Hni Hph] P.
+  constructor; cbn [reloaded m_rsh m_ind m_x m_y m_props m_unit m_pid m_phases]; auto.
+  - eapply Permutation_NoDup; [apply Permutation_sym, Permutation_map, P|exact Hpnd].
+  - intros k Hin. apply Hpres. eapply Permutation_in; [apply Permutation_map, P|exact Hin].
+  - rewrite Forall_forall in *. intros ka Hin. apply Hplen. eapply Permutation_in; [exact P|exact Hin].
+Qed.
+
+(* second cycle: saving and loading the loaded map succeeds again and returns
+   the same shape, mask, coordinates, phase ids, properties, unit and phases *)
+Theorem second_cycle (ver : pystr) (m : cmap (T:=T)) :
+  wf m ->
+  exists f1 p1 f2 p2,
+    save O ver m = Some f1 /\ load O ccanon restruct fresh f1 = Some (reloaded m p1) /\
+    save O ver (reloaded m p1) = Some f2 /\
+    load O ccanon restruct fresh f2 = Some (reloaded (reloaded m p1) p2) /\
+    Permutation p1 (m_props m) /\ Permutation p2 (m_props m).
+Proof.
+  intros H. destruct (load_save ver m H) as (f1 & p1 & S1 & L1 & P1).
+  destruct (load_save ver _ (wf_reloaded m p1 H P1)) as (f2 & p2 & S2 & L2 & P2).
+  exists f1, p1, f2, p2. repeat split; auto. cbn [reloaded m_props] in P2. etransitivity; eassumption.
 Qed.
 
 End Main.
